@@ -407,6 +407,13 @@ func surgery(text string, m map[string]json.RawMessage) []variant {
 			out = append(out, variant{build(mm, keys, ""), "retype:" + k})
 		}
 	}
+	// a valid encoding with something after (or before) it is not a KeyID
+	for _, tail := range []string{" x", "garbage", "{}", text, "\n[]", ",", "}", " \n\t"} {
+		out = append(out, variant{text + tail, "trailing"})
+	}
+	for _, head := range []string{"x ", "[]", "{}", ","} {
+		out = append(out, variant{head + text, "leading"})
+	}
 	// flags flipped one at a time and in pairs (reaches every conflict pair from a valid base)
 	flags := []string{"isFirefighter", "isHWKey", "isHeadless", "isNonce"}
 	for a := 0; a < 16; a++ {
